@@ -66,10 +66,25 @@ class Oracle:
         return sorted(out)
 
     def two_valued_models(self):
+        if len(self.names) > 10: return self.two_valued_models_allsat()
         out = []
         for c in itertools.product('TF', repeat=len(self.names)):
             v = {n: (x == 'T') for n, x in zip(self.names, c)}
             if self.gamma(v) == v: out.append(''.join(c))
+        return sorted(out)
+
+    def two_valued_models_allsat(self):
+        """for larger instances: the two-valued models are the satisfying assignments of AND(x_s <-> ac_s), enumerated by z3 with blocking clauses"""
+        s2 = z3.Solver(); s2.add(*[self.X[n] == self.F[n] for n in self.names])
+        out = []
+        while True:
+            self.queries += 1; t = time.time(); r = s2.check(); self.t += time.time() - t
+            if r != z3.sat: break
+            m = s2.model()
+            v = [z3.is_true(m.eval(self.X[n], model_completion=True)) for n in self.names]
+            out.append(''.join('T' if b else 'F' for b in v))
+            s2.add(z3.Or(*[self.X[n] != z3.BoolVal(b) for n, b in zip(self.names, v)]))
+            if len(out) > 5000: raise RuntimeError('more than 5000 two-valued models')
         return sorted(out)
 
     def stable_models(self):
@@ -114,28 +129,52 @@ def programs(kind, tier, seed):
     return progs
 
 
+def many_model_programs(tier, seed):
+    """instances with several hundred stable models (k independent pairs of mutually attacking statements, some with a guard): result buffers, channels and
+    de-duplication of the search procedures are exercised beyond what 8 statements can produce"""
+    rng = random.Random(seed * 13 + 3)
+    progs = []
+    for k in ([9] if tier == 'quick' else [9, 10, 9]):
+        names = []; acs = {}
+        for i in range(k):
+            a, b = 'p%d' % i, 'q%d' % i
+            names += [a, b]; acs[a] = ('neg', ('atom', b)); acs[b] = ('neg', ('atom', a))
+        if len(progs) == 2:          # one variant with a statement every model decides
+            names.append('g'); acs['g'] = ('or', ('atom', 'p0'), ('atom', 'q0'))
+        order = names[:]; rng.shuffle(order)
+        facts = [('s', x) for x in order] + [('ac', x) for x in order]
+        progs.append((T.render(order, acs, rng, order=facts, layout=False), order, acs, 'many models: %d pairs' % k))
+    return progs
+
+
 def run_backends(ctx, tier, seed, kinds):
     """-> (confirmed [(key, violation, detail)], coverage dict, inconclusive list)"""
     nat = ctx.native()
-    confirmed = []; inconclusive = []; samples = []
+    confirmed = []; inconclusive = []; samples = []; many_cache = {}
     stats = {'programs': 0, 'answers_judged': 0, 'z3_queries': 0, 'z3_seconds': 0.0, 'disagreements': 0}
     for kind in kinds:
         okind = {'stable_counting': 'stable', 'stable_nogood': 'stable', 'models_nogood': 'models'}.get(kind, kind)
-        for pi, (txt, names, acs, origin) in enumerate(programs(okind if kind == okind else 'stable', tier, seed)):
+        plist = programs(okind if kind == okind else 'stable', tier, seed)
+        if kind in ('stable_nogood', 'models_nogood', 'stable_counting'): plist = plist + many_model_programs(tier, seed)
+        for pi, (txt, names, acs, origin) in enumerate(plist):
             orc = Oracle(names, acs)
-            if okind == 'grounded': exp = [orc.cls(orc.grounded())]
+            many = origin.startswith('many models')
+            if many and (txt, okind) in many_cache: exp = many_cache[(txt, okind)]
+            elif okind == 'grounded': exp = [orc.cls(orc.grounded())]
             elif okind == 'complete': exp = orc.complete_models()
             elif okind == 'models': exp = orc.two_valued_models()
             else: exp = orc.stable_models()
+            if many: many_cache[(txt, okind)] = exp
             g0 = orc.cls(orc.grounded()) if okind == 'complete' else None
             stats['programs'] += 1; stats['z3_queries'] += orc.queries; stats['z3_seconds'] += orc.t
             for backend, proc in MATRIX[kind]:
                 sort = ['none', 'lexi', 'alphanum'][(pi + len(proc)) % 3]
-                out = nat.call({'cmd': 'sem_text', 'text': txt, 'backend': backend, 'proc': proc, 'sort': sort}, timeout=120)
+                # several hundred models: the optimised build of the same library (the nogood search is quadratic in the number of models)
+                out = (ctx.native(release=True) if many else nat).call({'cmd': 'sem_text', 'text': txt, 'backend': backend, 'proc': proc, 'sort': sort}, timeout=120)
                 if 'result' not in out:
                     # a hang or a panic on a well-formed ADF is itself a violation ("an empty result, not an error")
                     confirmed.append(('%s:%s:%s:%s' % (backend, proc, sort, hashlib.sha1(txt.encode()).hexdigest()[:12]),
-                                      {'kind': 'no-answer', 'what': '%s on back-end %s (%s sort) gives no answer: %s' % (proc, backend, sort, str(out)[:200]), 'text': txt,
+                                      {'kind': 'no-answer', 'release': many, 'what': '%s on back-end %s (%s sort) gives no answer: %s' % (proc, backend, sort, str(out)[:200]), 'text': txt,
                                        'backend': backend, 'proc': proc, 'sort': sort, 'expected': exp}, out))
                     continue
                 got = as_declared(names, out)
@@ -147,17 +186,18 @@ def run_backends(ctx, tier, seed, kinds):
                     stats['disagreements'] += 1
                     confirmed.append(('%s:%s:%s:%s' % (backend, proc, sort, hashlib.sha1(txt.encode()).hexdigest()[:12]),
                                       {'kind': 'wrong-' + okind, 'what': '%s on back-end %s (%s sort) answers %s, the definition (decided by z3 on the formulas) gives %s (statements %s)'
-                                       % (proc, backend, sort, got[:6], exp[:6], names), 'text': txt, 'backend': backend, 'proc': proc, 'sort': sort, 'expected': exp, 'observed': got}, out))
+                                       % (proc, backend, sort, got[:6], exp[:6], names), 'release': many, 'text': txt, 'backend': backend, 'proc': proc, 'sort': sort, 'expected': exp, 'observed': got}, out))
     cov = {'backend_programs': stats['programs'], 'backend_answers_judged': stats['answers_judged'], 'backend_z3_queries': stats['z3_queries'],
            'backend_z3_seconds': round(stats['z3_seconds'], 2), 'backend_disagreements': stats['disagreements'], 'backend_samples': samples,
            'backend_matrix': {k: ['%s/%s' % bp for bp in MATRIX[k]] for k in kinds},
            'backend_note': 'real binary (incl. the real biodivine library and bridge) on concrete texts; the expected answer is decided by z3 validity/unsatisfiability queries on the '
-                           'formulas of the text (grounded: up to 60 statements; complete/stable: candidates enumerated, each judged by z3)'}
+                           'formulas of the text (grounded: up to 300 statements; complete/stable: candidates enumerated, each judged by z3; for the search procedures additionally instances with 512+ '
+                           'stable models on 18+ statements, their two-valued models enumerated by z3 with blocking clauses, run on the optimised build)'}
     return confirmed, cov, inconclusive
 
 
 def replay_backend(ctx, v):
-    out = ctx.native().call({'cmd': 'sem_text', 'text': v['text'], 'backend': v['backend'], 'proc': v['proc'], 'sort': v['sort']}, timeout=120)
+    out = ctx.native(release=bool(v.get('release'))).call({'cmd': 'sem_text', 'text': v['text'], 'backend': v['backend'], 'proc': v['proc'], 'sort': v['sort']}, timeout=120)
     if 'result' not in out: return 'reproduced', out
     names, acs, _ = T.parse(v['text'])
     got = as_declared(names, out)
